@@ -334,6 +334,36 @@ def _rng(s):
     return ",".join(f"{a}..{b}" if a != b else str(a) for a, b in runs)
 
 
+def who_writes_the_counters(ctx, repo, cname, attrs):
+    """the counter state (the attributes the counter function works on, found by role) is written by the constructor and
+    by the counter function only: any other writer - a `reset` on a socket error, a reconnect helper - restarts or skews
+    the numbering in the middle of a connection (the next number is no longer the successor of the last one handed out)"""
+    c = repo.cls(cname)
+    n = 0
+    for cls in [c] + repo.subclasses(cname):
+        for fi in list(repo.all_methods(cls).values()) + list(cls.setters.values()):
+            if fi.name in ("__init__", FN):
+                continue
+            for node in walk_no_nested(fi.node):
+                tgt = None
+                if isinstance(node, (ast.Assign, ast.AugAssign, ast.AnnAssign)):
+                    for t in (node.targets if isinstance(node, ast.Assign) else [node.target]):
+                        for x in ast.walk(t):
+                            if isinstance(x, ast.Attribute) and isinstance(x.ctx, ast.Store):
+                                root = x
+                                while isinstance(root.value, ast.Attribute):
+                                    root = root.value
+                                if isinstance(root.value, ast.Name) and root.value.id == "self" and root.attr in attrs:
+                                    tgt = root.attr
+                if tgt is not None:
+                    n += 1
+                    ctx.ob("R3", f"{fi.qual}::writes::{tgt}", False,
+                           f"{fi.qual} writes the counter state `self.{tgt}` (`{ast.unparse(node)[:60]}`): only the constructor and {FN} may - a second writer restarts or skews the numbering "
+                           f"in the middle of a connection, the next number handed out is not the successor of the previous one", loc(fi, node))
+    ctx.ob("R3", f"{cname}::counter-state-written-by-constructor-and-counter-only", True, "")
+    ctx.count(f"R3:{cname}:other writers of the counter state", n)
+
+
 def lock_discipline(ctx, repo, cname, attrs):
     """Every access to a counter attribute outside __init__ is lexically inside
     `with self.<lock>` where <lock> is assigned threading.Lock() in __init__."""
@@ -651,6 +681,8 @@ def check(ctx):
             results.append(r)
         if r and cname == "GeckoUdpSocket":
             lock_discipline(ctx, repo, cname, r[1])
+        if r:
+            who_writes_the_counters(ctx, repo, cname, [a for a in r[1]])
     call_sites(ctx, repo)
     sibling(ctx, repo, results)
     ctx.assume("threading.Lock provides mutual exclusion (CPython)")
